@@ -41,15 +41,17 @@ def pairs_of(kind, values):
 
 
 class Budget:
-    def __init__(self, kind, teams, values, beta, kappa, tau, scale_c=None):
+    def __init__(self, kind, teams, values, beta, kappa, tau, mag_extra=0.0):
+        """mag_extra: additional magnitude per team sum that the compared presentation introduces (e.g. k*|shift| in C16)."""
         n = len(teams)
+        self.mag_extra = mag_extra
         self.kind = kind
         self.n = n
         self.kappa = kappa
         infl = [[(p[0], math.sqrt(p[1] * p[1] + tau * tau)) for p in t] for t in teams]
         self.infl = infl
         self.tmu = [math.fsum(p[0] for p in t) for t in infl]
-        self.tabs = [math.fsum(abs(p[0]) for p in t) for t in infl]
+        self.tabs = [math.fsum(abs(p[0]) for p in t) + mag_extra for t in infl]
         self.tvar = [math.fsum(p[1] * p[1] for p in t) for t in infl]
         self.S = [0.0] * n  # magnitude of the summands of Omega_i
         self.B_om = [0.0] * n  # rounding sensitivity of the TM tie corrections (Omega)
